@@ -79,12 +79,31 @@ def bit_per_byte(nbytes):
 # ---------------------------------------------------------------------------------------------------------
 # Generic instance with explicit port lists.
 
+class FastNetlist(Netlist):
+    """Same semantics as `Netlist` without the redundant combinational passes at the clock edge: `PortInst.apply`
+    re-settles the combinational logic after driving the inputs and before anything is sampled or clocked, and
+    `state_key()` reads registers only, so the edge just executes the sync statements and commits."""
+
+    def tick(self, cds=("sys",)):
+        ev = self.ev
+        for cd in cds:
+            if cd in self.sync:
+                ev.execute(self.sync[cd])
+        ev.commit()
+
+    def settle(self):
+        ev = self.ev
+        ev.execute(self.comb)
+        while ev.commit():
+            ev.execute(self.comb)
+
+
 class PortInst:
     def __init__(self, name, module, lean_open, inputs, outputs, qual, alphabet=None, clocks=("sys",)):
         self.name = name
         self.module = module
         self.lean_open = lean_open
-        self.netlist = Netlist(module, clocks=clocks)
+        self.netlist = FastNetlist(module, clocks=clocks)
         self.in_sigs = list(inputs)
         self.out_sigs = list(outputs)
         self.qual = list(qual)
@@ -627,10 +646,10 @@ def packetfifo_inst(name, pd, qd=None, buffered=False, dwid=1, pwid=1, data_valu
     letters = []
     if alphabet:
         toks = tokens or [(d, p, l) for d in data_values for p in param_values for l in (0, 1)]
-        for v in (0, 1):
-            for r in (0, 1):
-                for (d, p, l) in toks:
-                    letters.append((v, d, p, l, r))
+        for r in (0, 1):
+            letters.append((0, 0, 0, 0, r))       # nothing of an invalid sink is stored
+            for (d, p, l) in toks:
+                letters.append((1, d, p, l, r))
     qdepth = (qd if qd is not None else pd) + 1
     inst = PortInst(name, m, "packetfifo%s %d %d" % ("_buffered" if buffered else "", pd, qdepth), ins, outs,
                     [None, None, 1, 1, 1, 1], letters)
